@@ -136,7 +136,9 @@ let spec input obs =
                     (Stdlib.List.combine answers want);
                   let (((ar, ah), _), ((wr, wh), _)) = (Stdlib.List.nth answers !k, Stdlib.List.nth want !k) in
                   if ar <> wr || ah <> wh then fail "answer-order" (Printf.sprintf "query %d item %d %s" !qi !k !msg)
-                  else if wraps then fail "excess-int32-wrap" (Printf.sprintf "query %d item %d %s (regression of fix 54e9bff)" !qi !k !msg)
+                  else if wraps && (match snd (Stdlib.List.nth answers !k), snd (Stdlib.List.nth want !k) with
+                      | (Merkle.UnableToVerify | Merkle.Invalid), (Merkle.UnableToVerify | Merkle.Invalid) -> true
+                      | _ -> false) then fail "excess-int32-wrap" (Printf.sprintf "query %d item %d %s (regression of fix 54e9bff)" !qi !k !msg)
                   else fail "verdict-mismatch" (Printf.sprintf "query %d item %d %s" !qi !k !msg)
                 end else
                   match overall_of_letter o with
